@@ -5,6 +5,7 @@ import AiutiVerif.Batcher.Cancel
 import AiutiVerif.Batcher.Answer
 import AiutiVerif.Batcher.Window
 import AiutiVerif.Batcher.Stable
+import AiutiVerif.Batcher.OnTime
 /-!
 # Batcher property theorems (C04, C09, C10, C11)
 
@@ -577,6 +578,18 @@ theorem C10_fifo_final (M : Nat) (s0 : St) (hf : Fresh s0) (hM : s0.maxb ≤ M) 
   have hf := h.fifo
   rw [List.append_assoc, List.append_assoc] at hf
   exact ⟨_, hf⟩
+
+/-- **The machine is on time** (the timing clauses of C10, the window clause of C11).  At every input
+instant `t` of every run at which the machine did not run out of fuel (`advanceDone`; the driver reports
+it): no queued call is waiting to be looked at from an earlier instant, an assembly that is still open has
+its deadline - `batch_timeout` after it was last extended (`assemble` is the only writer: `now + bt`) - at
+`t` or later, no running batch is behind its script, no eviction timer is overdue.  So a batch that is not
+full is handed over no later than `batch_timeout` after its last arrival, unless all slots are taken
+(`C10_concurrency`), in which case it waits its turn (`C10_fifo`). -/
+theorem C10_on_time (s0 : St) (ins : List In) (t : Nat)
+    (hd : advanceDone fuelDefault t true (ins.foldl applyIn s0) = true) :
+    OnTime (arrive (ins.foldl applyIn s0) t) t :=
+  arrive_onTime _ t hd
 
 /-- Without mutations of `max_batch_size` the bound is the configured one. -/
 theorem C10_batch_sizes_fixed (s0 : St) (hf : Fresh s0) (ins : List In)
